@@ -54,6 +54,7 @@ class ScriptedRNG:
         self.normals = list(normals)
         self.uniforms = list(uniforms)
         self.log = []
+        self.draws = []  # (kind, [values]) parallel to log
         self.fallback = np.random.default_rng(fallback_seed) if fallback_seed is not None else None
 
     def _take(self, q, n, kind):
@@ -67,6 +68,7 @@ class ScriptedRNG:
             q.extend(extra)
         out = q[:n]
         del q[:n]
+        self.draws.append((kind, list(out)))
         return out
 
     def normal(self, loc=0.0, scale=1.0, size=None):
@@ -253,3 +255,74 @@ def lin_vec(prefix, d):
 def lin_terms(a):
     """list (per coordinate) of dict sym->coeff"""
     return [dict(x.t) if isinstance(x, Lin) else {"const": float(x)} for x in a.reshape(-1)]
+
+
+# ----------------------------------------------------------------------------- instrumented runs
+class CallLog:
+    """wraps bound methods of a real object (instance-level), logging arguments and results"""
+
+    def __init__(self):
+        self.calls = []  # (name, args(tuple of array copies), result)
+
+    def wrap(self, obj, name):
+        orig = getattr(obj, name)
+        log = self
+
+        def wrapper(*a, **k):
+            args = tuple(np.array(x, dtype=float).copy() if isinstance(x, np.ndarray) else x for x in a)
+            r = orig(*a, **k)
+            log.calls.append((name, args, np.array(r, dtype=float).copy() if isinstance(r, np.ndarray) else r))
+            return r
+
+        setattr(obj, name, wrapper)
+        return orig
+
+
+def snapshot_sampler_class(base):
+    """Subclass of HMC / RWMH (or visual variants) that records the documented attributes before
+    and after every acceptance evaluation."""
+
+    class Snap(base):
+        def _propose(self):
+            self._v_rng_mark = len(self.rng.draws) if hasattr(self.rng, "draws") else None
+            self._v_call_mark = len(self._v_calls.calls) if getattr(self, "_v_calls", None) else None
+            return super()._propose()
+
+        def _evaluate_acceptance(self):
+            if not hasattr(self, "_v_transitions"):
+                self._v_transitions = []
+            pre = {
+                "model": np.array(self.current_model, dtype=float).copy(),
+                "x": float(self.current_x),
+                "accepted": int(self.accepted_proposals),
+                "proposed_model": np.array(self.proposed_model, dtype=float).copy(),
+                "stepsize": _copy_step(self.stepsize),
+                "index": int(self.current_proposal),
+            }
+            if hasattr(self, "current_momentum") and self.current_momentum is not None:
+                pre["p0"] = np.array(self.current_momentum, dtype=float).copy()
+                pre["p1"] = np.array(self.proposed_momentum, dtype=float).copy()
+            r = super()._evaluate_acceptance()
+            post = {
+                "model": np.array(self.current_model, dtype=float).copy(),
+                "x": float(self.current_x),
+                "accepted": int(self.accepted_proposals),
+                "proposed_x": float(self.proposed_x),
+            }
+            rec = {"pre": pre, "post": post}
+            if self._v_rng_mark is not None:
+                rec["draws"] = list(self.rng.draws[self._v_rng_mark:])
+                rec["drawlog"] = list(self.rng.log[self._v_rng_mark:])
+            if self._v_call_mark is not None:
+                rec["calls"] = list(self._v_calls.calls[self._v_call_mark:])
+            self._v_transitions.append(rec)
+            return r
+
+    Snap.__name__ = "Snap" + base.__name__
+    return Snap
+
+
+def _copy_step(s):
+    if isinstance(s, np.ndarray):
+        return s.copy()
+    return s
